@@ -298,6 +298,7 @@ def iface_src(pkg, it):
         base = "// B%s is embedded by %s.\ntype B%s interface {\n%s\n}\n\n" % (it["name"], it["name"], it["name"], lines[0])
         lines[0] = "\tB%s" % it["name"]
     return (("package %s\n\ntype LN int\ntype LC interface{ ~int | ~int64 }\n\n// CM can clone itself.\ntype CM map[string]int\n\n"
+             "// package-level values spelled like parameter names (a parameter shadows them inside the method)\nvar val = 424242\n\nconst key = 434343\n\n"
              "// Clone returns a copy.\nfunc (c CM) Clone() CM {\n\tout := CM{}\n\tfor k, v := range c {\n\t\tout[k] = v\n\t}\n\treturn out\n}\n\n" % pkg) + base +
             ((("// Panic, Nil and Append are aliases of func types, named like builtins.\ntype Panic = func(v any)\ntype Nil = func()\ntype Append = func(int)\n\n"
                if it.get("alias_funcs") else
